@@ -10,19 +10,35 @@ CHECK = {'level': 'exploration',
          'structured index sets on a fresh storage copy for every size 1..130 (1..520); (c) rapid-generated trees with sizes around powers of '
          'two up to 2^12 (2^13 thorough), small sizes and uniform 0..2100, random distinct leaves (drawn byte strings incl. empty, 32-byte ids, '
          'mixed lengths, leaves starting with 0x00/0x01), random subsets/orders, reloads at drawn sizes, further appends after proofs, short '
-         'histories of updates with proofs and reloads in between; (d) lists with duplicate leaves: roots and append paths only. Non-trivial = '
+         'histories of updates with proofs and reloads in between; (d) lists with duplicate leaves: roots and append paths only; (e) argument '
+         'discipline on every call of every public function of pkg/trie/rmt (CalculateRoot, CalculateRootFromAppendPath, '
+         'CalculateRootFromUpdateData, CalculateRootFromRightWitness, VerifyProof, VerifyRightWitness, tree Append/Update/GenerateProof): '
+         'query and update index lists in ascending, descending and shuffled order (labels order=*); every argument (index slices, hash lists, '
+         'leaf data, the proof struct with its nested slices, append paths, witnesses, roots) compared byte for byte, through the full '
+         'capacity of the outer slices, with a deep copy taken before the call (label args-compared-after-call); re-use: ONE proof object / '
+         'query list / root slice serves the positive verification, every negative verification, the verification after them, two different '
+         'update-root computations and (its index slice) two real Updates, each answer compared with fresh deep copies or the model (labels '
+         'reuse:*), Append values handed over in a scratch buffer that is overwritten after the call; aliasing: the same arguments laid out '
+         'as sub-slices of one buffer with full capacity / with spare capacity, outer slices as windows of one array, index list as window '
+         'of a larger array with sentinels, must give the results of independent copies and stay unchanged (labels alias=*). Non-trivial = '
          'length >= 3 that is not a power of two; for subset cases additionally >= 2 queried/updated leaves lying on both sides of the root '
          'split. Distinct by digest of (kind, size, positions / drawn parameters)',
  'level_text': 'Differential test of the regular Merkle tree against a naive LIP-0031 model: exhaustive over all list lengths up to 260 '
                '(2100 thorough) for root/append path/size/reload/append prediction, over all witness indexes and structured proof and update '
                'index sets for every size in a smaller range, rapid-sampled beyond (sizes around powers of two up to 2^13, random subsets, '
-               'operation histories). Soundness side: tampered query hashes and roots must be rejected.',
+               'operation histories). Soundness side: tampered query hashes and roots must be rejected. Every call is additionally checked for '
+               'not modifying its arguments, for giving the same answers when the same argument objects are used again, and when the '
+               'arguments share backing arrays.',
  'level_note': 'Model is my transcription of LIP-0031; leaves are distinct for proof/update/witness checks (hash-keyed location index), '
                'duplicates only in root checks; after an Update nothing that depends on the stored append path is asserted.',
  'technique': 'exhaustive enumeration + property-based differential testing (rapid) against a LIP-0031 reference model',
  'assumptions': ['reference = my transcription of LIP-0031 in harness/model/rmt (SHA-256, prefixes 0x00/0x01, split at the largest power of two < n)',
                  'leaves distinct except in root-only checks (no caller appends duplicates)',
                  'reload of a never-written storage (n=0) is not asserted',
+                 'no function of pkg/trie/rmt documents that it consumes or keeps an argument: arguments must be unchanged after the call and '
+                 'may be overwritten by the caller afterwards',
+                 'hash arguments with spare capacity inside one caller buffer: known finding C11-F5 (reported once per run, that layout is then '
+                 'only counted; the full-capacity layouts are asserted strictly)',
                  'Update does not refresh the stored append path (observed, reported in notes/C11.md as outside the statement): no append, '
                  'append-path or right-witness assertion after an Update'],
  'quick': [{'pkg': 'c11', 'checks': 500, 'timeout': 600}],
